@@ -15,6 +15,7 @@
 import Dlismodel.Proofs.Api
 import Dlismodel.Proofs.ApiSim
 import Dlismodel.Proofs.Dataset
+import Dlismodel.Proofs.Defaults
 namespace Dlis.C20
 open Dlis
 
@@ -56,6 +57,23 @@ example :
     let ops : List Op := [.origin 0 none [79] none .ok, .origin 1 (some [84]) [80] none .ok,
       .item 0 3 none [65] none .ok, .item 1 3 none [66] none .rejectLate]
     writable (run (World.init 2) ops) = true := by
+  decide +kernel
+
+/-- second half, for the values derived at write time that the model covers (`DimState`): a check that is refused —
+also half-way, after an earlier attribute of a calibration measurement has fixed a dimension — leaves what the user
+assigned, and the next check is the one a fresh specification gets -/
+theorem refused_check_leaves_assignment (c : DimCheck) (s : DimState) (c' : DimCheck) :
+    (c.run s).1.forget = s.forget ∧ c'.run (c.run s).1 = c'.run (DimState.assigned s.forget) :=
+  ⟨DimCheck.run_user c s, by rw [DimCheck.run_fresh, DimCheck.run_user]⟩
+
+/-- the refusal that used to leave a dimension behind: two attributes of a calibration measurement that disagree in
+shape; corrected, the item is accepted -/
+example :
+    let a2 : PyVal := .list [.list [.int 1, .int 2], .list [.int 3, .int 4]]
+    let a3 : PyVal := .list [.list [.int 1, .int 2, .int 3], .list [.int 4, .int 5, .int 6]]
+    let r1 := calMeasCheckSt [a2, a3] none (DimState.assigned none)
+    r1.2 = .error .runtime ∧ r1.1.held = some [2] ∧ r1.1.derived = true ∧
+      (calMeasCheckSt [a3, a3] none r1.1).2 = .ok () ∧ (calMeasCheckSt [a3, a3] none r1.1).1.held = some [3] := by
   decide +kernel
 
 /-- "dataset names … of objects added later are as if the call had never been made": the data set names given to
